@@ -1426,3 +1426,10 @@ VARIANTS += [
     V('C17-M32', 'M', ('C17',), QM, 'IterableQueue.put_end', r"z = self\._spare_lids\.get\(timeout=1\.0\)", "z = self._spare_lids.get()", ('C17-8',), note='seeded C17-f5m1 shape: unbounded wait for the next round'),
     V('C17-M33', 'M', ('C17',), QM, 'IterableQueue.put_end', r"(\n\s+)if self\._to_stop is not None and self\._to_stop\.is_set\(\):\n\s+raise StopRequested", r"\1pass", ('C17-8',), note='retry without looking at the stop event'),
 ]
+
+VARIANTS += [
+    V('C03-M38', 'M', ('C03',), ST, None, r"NOTSET = object\(\)\n(.*?)initializer: Any = NOTSET(.*?)if z is NOTSET:", r"\1initializer: Any = None\2if z is None:", ('C03-11',), note='seeded C03-f6m2 shape'),
+    V('C03-M39', 'M', ('C03', 'C08'), ST, 'Buffer._start', r"SingleLane\(self\.maxsize\)", "SingleLane(self.maxsize - 1)", ('C03-9', 'C08-1'), note='seeded C03-f6m1 shape'),
+    V('C17-M34', 'M', ('C17',), QM, 'IterableQueue.renew', r"(\n        )z = self\._q\.get\(\)  # take out the extra `None`\n", r"\1with self._lids_lock:\1    z = self._q.get()\n", ('C17-9',), note='seeded C17-f6m1 shape'),
+    V('C15-M33', 'M', ('C15',), RX, 'RemoteException.__init__', r"traceback\.format_exception\(type\(exc\), exc, tb\)", "traceback.format_exception(exc)", ('C15-3',), note='seeded C15-f6m1 shape'),
+]
